@@ -44,13 +44,6 @@ Proof.
     bsplit. rewrite ?orb_true_r in *. cbn [front_ok] in *. repeat match goal with Hx : ?x = true |- context [?x] => rewrite Hx end; reflexivity.
 Qed.
 
-Lemma set_fw_sem w s e : step_in e (set_fw w s) = step_in e s /\ d_step (set_fw w s) = d_step s.
-Proof.
-  unfold step_in, d_step, set_fw. destruct s as [rules rend syms send bpw bp bpend bmw bm bmend ext models]. cbn [s_rules s_rend s_syms s_send s_bpw s_bplus s_bpend s_bmw s_bminus s_bmend s_ext s_models].
-  destruct rules as [|rl t]; cbn [s_rules s_rend s_syms s_send s_bpw s_bplus s_bpend s_bmw s_bminus s_bmend s_ext s_models]; [split; reflexivity|].
-  destruct (set_tw_props w rl) as (_ & _ & _ & _ & E5 & E6). cbn [forallb d_rules]. rewrite E5, E6. split; reflexivity.
-Qed.
-
 Lemma step_fw_sep s : step_ok true s = true -> sep_ok (step_fw s) = true.
 Proof.
   unfold step_ok, step_fw. intros H. bsplit. destruct (s_rules s) as [|rl t].
@@ -71,28 +64,49 @@ Proof.
     eexists d, _. split; [reflexivity | exact Hd].
 Qed.
 
+(* ================= generic in the reader's atom limit vm (ProgramReader::setMaxVar); the statements without a limit
+   (vm = sm_varMax = atomMax: set_fw_sem, reader_spec, complete, rejects, denotes, never_fuel, ...) follow behind the section ================= *)
+Section MaxVar.
+Variable vm : Z.
+Hypothesis Hvm : vm <= INT64_MAX.
+Local Notation rule_in := (rule_in_v vm).
+Local Notation step_in := (step_in_v vm).
+Local Notation in_range := (in_range_v vm).
+Local Notation parse_steps := (parse_steps_v vm).
+Local Notation read_smodels := (read_smodels_v vm).
+
+Lemma set_tw_in_v w rl e : rule_in e (set_tw w rl) = rule_in e rl.
+Proof. destruct rl; reflexivity. Qed.
+
+Lemma set_fw_sem_v w s e : step_in e (set_fw w s) = step_in e s /\ d_step (set_fw w s) = d_step s.
+Proof.
+  unfold step_in_v, d_step, set_fw. destruct s as [rules rend syms send bpw bp bpend bmw bm bmend ext models]. cbn [s_rules s_rend s_syms s_send s_bpw s_bplus s_bpend s_bmw s_bminus s_bmend s_ext s_models].
+  destruct rules as [|rl t]; cbn [s_rules s_rend s_syms s_send s_bpw s_bplus s_bpend s_bmw s_bminus s_bmend s_ext s_models]; [split; reflexivity|].
+  destruct (set_tw_props w rl) as (_ & _ & _ & _ & _ & E6). cbn [forallb d_rules]. rewrite set_tw_in_v, E6. split; reflexivity.
+Qed.
+
 Definition uspec (b : bool) (m : cres unit) (cs : list call) : Prop :=
   if b then m = (cs, Ok tt) else exists cs' ln, m = (cs', Err ln).
 
-Lemma steps_spec (o : opts) (inc : bool) tail : ws_ok tail = true ->
+Lemma steps_spec_v (o : opts) (inc : bool) tail : ws_ok tail = true ->
   forall n l lead fuel ln, length l = S n -> (n < fuel)%nat -> steps_ok lead l = true ->
   uspec (forallb (step_in (claspExt o)) l && ((length l <=? 1)%nat || inc))
         (parse_steps fuel o inc (amk (flat_map r_step l ++ tail) ln)) (flat_map d_step l).
 Proof.
   intros Htail. induction n as [|n IH]; intros l lead fuel ln Hlen Hfu Hok;
     (destruct fuel as [|fu]; [lia|]); destruct l as [|s l]; try discriminate; cbn [steps_ok] in Hok; apply andb_prop in Hok; destruct Hok as [Hs Hl].
-  - destruct l; [|discriminate]. cbn [flat_map app forallb length Nat.leb orb parse_steps]. rewrite !app_nil_r, !andb_true_r.
+  - destruct l; [|discriminate]. cbn [flat_map app forallb length Nat.leb orb parse_steps_v]. rewrite !app_nil_r, !andb_true_r.
     assert (Hd : delim tail). { destruct tail as [|c t]; [exact I|]. cbn in Htail. bsplit. cbn. now apply ws_not_digit. }
-    pose proof (step_spec o lead s tail ln Hs Hd) as Hp.
+    pose proof (step_v_spec vm Hvm o lead s tail ln Hs Hd) as Hp.
     destruct (step_in (claspExt o) s).
     + destruct Hp as [ln1 E]. rewrite E. cbn [cbind]. unfold a_skipws. cbn [rest aline].
       destruct (skipws_app (length tail) tail [] ln1 (le_n _) Htail I) as [ln2 E2]. rewrite app_nil_r in E2. rewrite E2.
       cbn. rewrite app_nil_r. reflexivity.
     + destruct Hp as (cs' & ln1 & E). rewrite E. cbn [cbind]. eexists _, ln1. reflexivity.
   - destruct l as [|s2 l]; [discriminate|]. cbn [steps_ok] in Hl. apply andb_prop in Hl. destruct Hl as [Hs2 Hl].
-    cbn [flat_map forallb parse_steps]. rewrite <- !app_assoc. rewrite (r_step_split s2), <- !app_assoc.
+    cbn [flat_map forallb parse_steps_v]. rewrite <- !app_assoc. rewrite (r_step_split s2), <- !app_assoc.
     pose proof (step_fw_sep s2 Hs2) as Hsep. pose proof (set_fw_ok true s2 Hs2) as Hok2.
-    pose proof (step_spec o lead s (step_fw s2 ++ step_body s2 ++ flat_map r_step l ++ tail) ln Hs ltac:(now apply delim_sep)) as Hp.
+    pose proof (step_v_spec vm Hvm o lead s (step_fw s2 ++ step_body s2 ++ flat_map r_step l ++ tail) ln Hs ltac:(now apply delim_sep)) as Hp.
     change (length (s :: s2 :: l) <=? 1)%nat with false. cbn [orb].
     destruct (step_in (claspExt o) s); cbn [andb].
     + destruct Hp as [ln1 E]. rewrite E. cbn [cbind]. unfold a_skipws. cbn [rest aline].
@@ -105,7 +119,7 @@ Proof.
       * rewrite <- Ey.
         specialize (IH (set_fw [] s2 :: l) false fu ln2 ltac:(cbn in *; lia) ltac:(lia) ltac:(cbn [steps_ok]; rewrite Hok2, Hl; reflexivity)).
         cbn [flat_map forallb] in IH. fold (step_body s2) in IH. rewrite <- app_assoc in IH.
-        destruct (set_fw_sem [] s2 (claspExt o)) as [E5 E6]. rewrite E5, E6, orb_true_r, andb_true_r in IH. rewrite andb_true_r.
+        destruct (set_fw_sem_v [] s2 (claspExt o)) as [E5 E6]. rewrite E5, E6, orb_true_r, andb_true_r in IH. rewrite andb_true_r.
         destruct (step_in (claspExt o) s2 && forallb (step_in (claspExt o)) l).
         -- rewrite IH. reflexivity.
         -- destruct IH as (cs' & ln3 & E3). rewrite E3. eexists _, ln3. reflexivity.
@@ -125,17 +139,17 @@ Qed.
 Lemma r_step_len s : (1 <= length (r_step s))%nat.
 Proof. unfold r_step, r_zero. rewrite !app_length. cbn [length]. lia. Qed.
 
-Lemma first9 s x : step_ok false s = true -> hd 0 (r_step s ++ x) = 57 -> step_in false s = false.
+Lemma first9_v s x : step_ok false s = true -> hd 0 (r_step s ++ x) = 57 -> step_in false s = false.
 Proof.
   intros Hok. pose proof (step_fw_nil s Hok) as Hfw. unfold step_ok in Hok. bsplit.
-  unfold step_fw in Hfw. unfold r_step, step_in. destruct (s_rules s) as [|rl t].
+  unfold step_fw in Hfw. unfold r_step, step_in_v. destruct (s_rules s) as [|rl t].
   - subst. cbn [flat_map app]. match goal with Hx : s_rend s = [] |- _ => rewrite Hx end. cbn. discriminate.
   - cbn [flat_map forallb]. unfold r_rule. rewrite Hfw. cbn [app]. rewrite <- !app_assoc.
-    destruct rl as [tw h b|ch tw nw hs b|tw h b bnd|tw h bnd b wts|tw bnd b wts|tw z|tw a v|tw a|t0]; cbn [rule_type rule_in andb]; try reflexivity;
+    destruct rl as [tw h b|ch tw nw hs b|tw h b bnd|tw h bnd b wts|tw bnd b wts|tw z|tw a v|tw a|t0]; cbn [rule_type rule_in_v andb]; try reflexivity;
       try (destruct ch); intros Hx; vm_compute in Hx; discriminate.
 Qed.
 
-Theorem reader_spec (o : opts) p : layout_ok p = true ->
+Theorem reader_spec_v (o : opts) p : layout_ok p = true ->
   uspec (in_range (claspExt o) p) (read_smodels o (render p)) (denote p).
 Proof.
   unfold layout_ok. intros H. bsplit. destruct (p_steps p) as [|s l] eqn:Esteps; [discriminate|].
@@ -144,13 +158,13 @@ Proof.
   assert (Er : render p = step_body s ++ flat_map r_step l ++ p_tail p).
   { unfold render. rewrite Esteps. cbn [flat_map]. rewrite (r_step_split s), (step_fw_nil s Hs), <- app_assoc. reflexivity. }
   destruct (step_body_hd s (flat_map r_step l ++ p_tail p) Hok2) as (d & y & Ey & Hd).
-  unfold read_smodels, a_init, a_peek. cbn [rest].
+  unfold read_smodels_v, a_init, a_peek. cbn [rest].
   assert (Einc : incremental p = (d =? 57)). { unfold incremental, first_byte. rewrite Er, Ey. reflexivity. }
   assert (Efull : render p = flat_map r_step (s :: l) ++ p_tail p). { unfold render. now rewrite Esteps. }
   rewrite Er, Ey, Hd. cbn [andb]. rewrite <- Ey, <- Er, Efull.
-  unfold in_range, denote. rewrite Esteps, Einc.
+  unfold in_range_v, denote. rewrite Esteps, Einc.
   destruct (negb (d =? 57) || claspExt o) eqn:Eprobe.
-  - pose proof (steps_spec o (d =? 57) (p_tail p) ltac:(assumption) (length l) (s :: l) false
+  - pose proof (steps_spec_v o (d =? 57) (p_tail p) ltac:(assumption) (length l) (s :: l) false
                   (fuel_of (amk (flat_map r_step (s :: l) ++ p_tail p) 1)) 1 eq_refl) as Hp.
     assert (Hfu : (length l < fuel_of (amk (flat_map r_step (s :: l) ++ p_tail p) 1))%nat).
     { unfold fuel_of. cbn [rest]. rewrite app_length.
@@ -166,50 +180,74 @@ Proof.
   - apply orb_false_elim in Eprobe. destruct Eprobe as [E9 Eext]. apply negb_false_iff in E9. apply Z.eqb_eq in E9. subst d.
     rewrite Eext.
     assert (Hf : step_in false s = false).
-    { apply (first9 s (flat_map r_step l ++ p_tail p) Hs). rewrite (r_step_split s), (step_fw_nil s Hs). cbn [app]. rewrite Ey. reflexivity. }
+    { apply (first9_v s (flat_map r_step l ++ p_tail p) Hs). rewrite (r_step_split s), (step_fw_nil s Hs). cbn [app]. rewrite Ey. reflexivity. }
     cbn [forallb]. rewrite Hf. cbn [andb]. eexists _, 1. reflexivity.
 Qed.
 
 (* ---- corollaries ---- *)
-Lemma complete (o : opts) p : layout_ok p = true -> in_range (claspExt o) p = true ->
+Lemma complete_v (o : opts) p : layout_ok p = true -> in_range (claspExt o) p = true ->
   read_smodels o (render p) = (denote p, Ok tt).
-Proof. intros H Hin. pose proof (reader_spec o p H) as Hs. rewrite Hin in Hs. exact Hs. Qed.
+Proof. intros H Hin. pose proof (reader_spec_v o p H) as Hs. rewrite Hin in Hs. exact Hs. Qed.
 
-Lemma rejects (o : opts) p : layout_ok p = true -> in_range (claspExt o) p = false ->
+Lemma rejects_v (o : opts) p : layout_ok p = true -> in_range (claspExt o) p = false ->
   exists cs ln, read_smodels o (render p) = (cs, Err ln).
-Proof. intros H Hin. pose proof (reader_spec o p H) as Hs. rewrite Hin in Hs. exact Hs. Qed.
+Proof. intros H Hin. pose proof (reader_spec_v o p H) as Hs. rewrite Hin in Hs. exact Hs. Qed.
 
-Lemma denotes (o : opts) p cs : layout_ok p = true -> read_smodels o (render p) = (cs, Ok tt) ->
+Lemma denotes_v (o : opts) p cs : layout_ok p = true -> read_smodels o (render p) = (cs, Ok tt) ->
   in_range (claspExt o) p = true /\ cs = denote p.
 Proof.
-  intros H E. pose proof (reader_spec o p H) as Hs. destruct (in_range (claspExt o) p).
+  intros H E. pose proof (reader_spec_v o p H) as Hs. destruct (in_range (claspExt o) p).
   - rewrite Hs in E. inversion E. split; reflexivity.
   - destruct Hs as (cs' & ln & E2). rewrite E2 in E. discriminate.
 Qed.
 
-Lemma never_fuel (o : opts) p cs : layout_ok p = true -> read_smodels o (render p) <> (cs, Fuel).
+Lemma never_fuel_v (o : opts) p cs : layout_ok p = true -> read_smodels o (render p) <> (cs, Fuel).
 Proof.
-  intros H E. pose proof (reader_spec o p H) as Hs. destruct (in_range (claspExt o) p).
+  intros H E. pose proof (reader_spec_v o p H) as Hs. destruct (in_range (claspExt o) p).
   - rewrite Hs in E. discriminate.
   - destruct Hs as (cs' & ln & E2). rewrite E2 in E. discriminate.
 Qed.
 
-Lemma in_range_rule_false ext p s rl : In s (p_steps p) -> In rl (s_rules s) -> rule_in ext rl = false -> in_range ext p = false.
+Lemma in_range_rule_false_v ext p s rl : In s (p_steps p) -> In rl (s_rules s) -> rule_in ext rl = false -> in_range ext p = false.
 Proof.
-  intros Hs Hr Hf. unfold in_range.
+  intros Hs Hr Hf. unfold in_range_v.
   assert (E : forallb (step_in ext) (p_steps p) = false).
-  { apply not_true_is_false. intros Ht. rewrite forallb_forall in Ht. specialize (Ht s Hs). unfold step_in in Ht. bsplit.
+  { apply not_true_is_false. intros Ht. rewrite forallb_forall in Ht. specialize (Ht s Hs). unfold step_in_v in Ht. bsplit.
     match goal with Hx : forallb (rule_in ext) (s_rules s) = true |- _ => rewrite forallb_forall in Hx; specialize (Hx rl Hr) end. congruence. }
   rewrite E. reflexivity.
 Qed.
 
-Lemma in_range_step_false ext p s : In s (p_steps p) -> step_in ext s = false -> in_range ext p = false.
+Lemma in_range_step_false_v ext p s : In s (p_steps p) -> step_in ext s = false -> in_range ext p = false.
 Proof.
-  intros Hs Hf. unfold in_range.
+  intros Hs Hf. unfold in_range_v.
   assert (E : forallb (step_in ext) (p_steps p) = false).
   { apply not_true_is_false. intros Ht. rewrite forallb_forall in Ht. specialize (Ht s Hs). congruence. }
   rewrite E. reflexivity.
 Qed.
+
+End MaxVar.
+
+(* ---- the instance without a limit: vm = sm_varMax = atomMax (by conversion) ---- *)
+Lemma set_fw_sem w s e : step_in e (set_fw w s) = step_in e s /\ d_step (set_fw w s) = d_step s.
+Proof. exact (set_fw_sem_v sm_varMax w s e). Qed.
+Theorem reader_spec (o : opts) p : layout_ok p = true ->
+  uspec (in_range (claspExt o) p) (read_smodels o (render p)) (denote p).
+Proof. exact (reader_spec_v sm_varMax atomMax_le_int64 o p). Qed.
+Lemma complete (o : opts) p : layout_ok p = true -> in_range (claspExt o) p = true ->
+  read_smodels o (render p) = (denote p, Ok tt).
+Proof. exact (complete_v sm_varMax atomMax_le_int64 o p). Qed.
+Lemma rejects (o : opts) p : layout_ok p = true -> in_range (claspExt o) p = false ->
+  exists cs ln, read_smodels o (render p) = (cs, Err ln).
+Proof. exact (rejects_v sm_varMax atomMax_le_int64 o p). Qed.
+Lemma denotes (o : opts) p cs : layout_ok p = true -> read_smodels o (render p) = (cs, Ok tt) ->
+  in_range (claspExt o) p = true /\ cs = denote p.
+Proof. exact (denotes_v sm_varMax atomMax_le_int64 o p cs). Qed.
+Lemma never_fuel (o : opts) p cs : layout_ok p = true -> read_smodels o (render p) <> (cs, Fuel).
+Proof. exact (never_fuel_v sm_varMax atomMax_le_int64 o p cs). Qed.
+Lemma in_range_rule_false ext p s rl : In s (p_steps p) -> In rl (s_rules s) -> rule_in ext rl = false -> in_range ext p = false.
+Proof. exact (in_range_rule_false_v sm_varMax ext p s rl). Qed.
+Lemma in_range_step_false ext p s : In s (p_steps p) -> step_in ext s = false -> in_range ext p = false.
+Proof. exact (in_range_step_false_v sm_varMax ext p s). Qed.
 
 Lemma forallb_false_in {A} (f : A -> bool) l a : In a l -> f a = false -> forallb f l = false.
 Proof. intros Hin Hf. apply not_true_is_false. intros Ht. rewrite forallb_forall in Ht. specialize (Ht a Hin). congruence. Qed.
